@@ -264,4 +264,30 @@ example : ((Kpn.chanSys id).run [.producer, .consumer 1, .consumer 0, .producer,
 example : (Kpn.chanSys id).run [.producer, .consumer 0, .consumer 0] (Kpn.chanInit 2) = none ∧
           (Kpn.chanSys id).run [.producer, .consumer 0, .producer] (Kpn.chanInit 2) = none := by decide
 
+/-! a one-processor counter (`inc r0 ; r2owa r0 o0 ; j 0`) bonded to one external output: the
+    reference network, the simulator world and the hardware world, all evaluated by the kernel -/
+
+def cntTopo : Topo := run Topo.empty [.addProcessor 0 1, .addOutput, .addBond ⟨3, 0, 0⟩ ⟨1, 0, 0⟩]
+def cntArch : Arch := { rsize := 8, r := 1, n := 0, m := 1, l := 0, o := 2, ops := ["inc", "j", "r2owa"] }
+def cntMachine : Machine :=
+  { topo := cntTopo, archs := [cntArch], progs := [[Bits.ofString01 "0000", Bits.ofString01 "1000", Bits.ofString01 "0100"]] }
+/-- the environment acknowledges after 1, 0, 2, 1, 0, 2 … stalls -/
+def cntSpec : EnvSpec := { odel := [[1, 0, 2]] }
+
+example : MachineOk cntMachine :=
+  ⟨Props.C10.wf_run _, rfl, rfl, fun p a h => by
+    cases p with
+    | zero => simp [cntMachine] at h; subst h; rfl
+    | succ p => simp [cntMachine] at h⟩
+
+set_option maxRecDepth 8000 in
+example : refStreams cntTopo (refRun cntMachine cntSpec 7) = [[1, 2]] := by decide
+
+set_option maxRecDepth 8000 in
+/-- 24 ticks of the simulator world deliver 1,2,3,4; 24 clocks of the hardware world 1,2,3 -/
+example : (runIsa cntMachine cntSpec 24 (Bm.init cntMachine, envInit cntSpec 0 1, false)).map (fun r => envStreams r.2.1)
+      = some [[1, 2, 3, 4]] ∧
+    envStreams (runRtl cntMachine cntSpec 24 (hwInit cntMachine, envInit cntSpec 0 1, false)).2.1 = [[1, 2, 3]] := by
+  decide
+
 end BMV.Props.C02
